@@ -41,6 +41,7 @@ struct ReqSpec {
 
 struct Cfg {
   std::string name;
+  bool        reuse_fds = false; // hand out the lowest free descriptor number like POSIX does (default: numbers are never reused)
   // events {kind,a,b} applied before the search starts: the search then explores from a non-initial state (they are
   // part of every history and of every replay, but do not count against the depth and per-kind budgets)
   std::vector<std::array<int, 3>> preamble;
@@ -208,6 +209,7 @@ struct Transmission {
   bool        in_timer = false; // sent while the application was processing a timer expiry
   bool        in_closure = false;
   int         src_variant = 0;     // local address variant of the socket it was sent from
+  int         sock_serial = -1; // which socket object (index into World::socks) it was sent on; descriptor numbers may be reused
   long        seq = 0;
   bool        batched = false;  // TCP frame flushed together with earlier frames in one send(): queued at an unknown earlier moment
   long        decision_seq = 0; // when the server for this transmission was chosen (TCP: when the connection was opened)
@@ -349,12 +351,18 @@ struct World {
   void do_timer();
   void do_destroy();
   void do_setservers(int variant);
+  // the socket currently (or, if none is open, most recently) known under this descriptor number
   VSock *sock(int fd)
   {
+    VSock *last = nullptr;
     for (auto &s : socks)
-      if (s->fd == fd) return s.get();
-    return nullptr;
+      if (s->fd == fd) {
+        if (s->open) return s.get();
+        last = s.get();
+      }
+    return last;
   }
+  VSock *sock_of(const Transmission &t) { return t.sock_serial >= 0 && t.sock_serial < (int)socks.size() ? socks[(size_t)t.sock_serial].get() : sock(t.fd); }
   bool readable(const VSock &s) const;
   bool writable(const VSock &s) const;
   std::vector<int> ready_fds(bool legacy_sets);
